@@ -224,7 +224,8 @@ class ASTTypeBuilder:
         return ObjectType(
             name=type_def.name.value,
             description=_desc(type_def),
-            fields=[
+            # has to be lazy to support cyclic definition through arguments
+            fields=lambda: [
                 self._build_field(field_node) for field_node in type_def.fields
             ],
             interfaces=(
@@ -244,7 +245,8 @@ class ASTTypeBuilder:
         return InterfaceType(
             name=type_def.name.value,
             description=_desc(type_def),
-            fields=[
+            # has to be lazy to support cyclic definition through arguments
+            fields=lambda: [
                 self._build_field(field_node) for field_node in type_def.fields
             ],
             nodes=[type_def],
